@@ -1501,3 +1501,33 @@ func ruleNoNewRowsForRemovedWallet(c *report.Ctx) {
 		c.Fail("PutNewAddress(selected)", "no address row writer for the selected wallet found (anchor lost)", "")
 	}
 }
+
+// ruleRemovableVerdictConsidersInputs (C08): a transaction another wallet spent from is not "only the removed wallet's".
+func ruleRemovableVerdictConsidersInputs(c *report.Ctx) {
+	p := c.P
+	c.Rule("removable-verdict-considers-inputs", "the verdict that lets a wallet removal delete a transaction record (removableTxForRemoveWallet) looks at the transaction's inputs as well as its outputs: a transaction that pays only the removed wallet but spends a coin of a surviving wallet is that wallet's too — without its record (and its entry in the block record) a later rollback of its block no longer un-spends the survivor's coin", 1)
+	rv := fn(c, pkgTxmgr, "TxStore", "removableTxForRemoveWallet")
+	if rv == nil {
+		return
+	}
+	msgTx := p.Type(pkgWire, "MsgTx")
+	looksAtInputs := false
+	for _, g := range reachIn(p, rv, pkgTxmgr) {
+		an.Instrs(g, func(in ssa.Instruction) {
+			if fa, ok := in.(*ssa.FieldAddr); ok && msgTx != nil {
+				if n := an.NamedOf(fa.X.Type()); n != nil && n.Obj() == msgTx.Obj() && an.FName(n.Underlying().(*types.Struct), fa.Field) == "TxIn" {
+					looksAtInputs = true
+				}
+			}
+			if cc := an.CallOf(in); cc != nil && cc.StaticCallee() != nil && (nm(cc.StaticCallee()) == "existsDebit" || nm(cc.StaticCallee()) == "existsRawDebit") {
+				looksAtInputs = true
+			}
+		})
+	}
+	key := sk(rv) + ":inputs"
+	if looksAtInputs {
+		c.OK(key, "the verdict consults the inputs / debit records", p.Pos(rv.Pos()))
+	} else {
+		c.Fail(key, "only the outputs decide whether a transaction record may be deleted with the wallet: a transaction paying the removed wallet alone but spending a surviving wallet's coin loses its record and its place in the block record, so when its block is rolled back afterwards the survivor's coin stays spent (balance and coins of another wallet changed by the removal)", p.Pos(rv.Pos()))
+	}
+}
